@@ -108,7 +108,10 @@ func newStringAdditionalProperties(r schema.RuleASTNode) *AdditionalProperties {
 		return &AdditionalProperties{mode: additionalPropertiesObject}
 	}
 
-	if r.Value == internal.StringAny {
+	if r.Value == internal.StringAny ||
+		r.Value == string(schema.SchemaTypeEnum) || r.Value == string(schema.SchemaTypeMixed) {
+		// "enum" and "mixed" without their list of values / alternatives do not
+		// restrict anything.
 		return nil
 	}
 
